@@ -10,5 +10,5 @@ CONSTANTS
   Anons = {"a0", "a1", "a2", "a3", "a4", "a5", "a6", "a7", "a8"}
   ClientBlindCtx = "CB"
   IssuerBlindCtx = "IB"
-  Enforce = {"quiet", "accepts-iff-authentic", "put-only-on-first-accept", "registered-after", "client-indices-match-model", "unknown-event"}
+  Enforce = {"quiet", "accepts-iff-authentic", "put-only-on-first-accept", "registered-after", "client-indices-match-model", "known-origins-match-model", "unknown-event"}
 CHECK_DEADLOCK FALSE
